@@ -172,9 +172,29 @@ def body_fp_border(I, case):
     I.prove('decimal-region-inside-die-not-judged-outside', True)
 
 
+def body_decimal_netlist(I, case):
+    """a die with decimal coordinates (computed in real binary64: its area sum carries round-off) and an attached netlist whose fixed
+    macro has a symbolic size and position; first thing in the process (tolerances undefined): the valid description must be accepted"""
+    Rectangle.undefine_epsilon()
+    d = case['die']
+    s_ = I.real('macro_w', 0.5, 20)
+    x = I.real('macro_x', 60, 150)
+    net = Netlist({'Modules': {'F': {'fixed': True, 'rectangles': [[x, 20.0, s_, 3.0]]}}})
+    try:
+        die = Die(dict(width=d['width'], height=d['height'], regions=[list(r) for r in d['regions']]), net)
+    except AssertionError as e:
+        I.detail = f'rejected: {e}'
+        I.prove('valid-decimal-description-with-netlist-accepted', False, side=True)
+        return
+    I.reached('accepted')
+    I.prove('fixed-region-reported', len(die.fixed_regions) == 1 and len(die.blockages) + len(die.specialized_regions) == len(d['regions']))
+
+
 def body(I, case):
     if case['kind'] == 'fp-border':
         return body_fp_border(I, case)
+    if case['kind'] == 'decimal-netlist':
+        return body_decimal_netlist(I, case)
     nb = case['nb']
     tr = case['transposed']
     b = [0.0]
